@@ -235,6 +235,13 @@ add(property='C06', id='C06-other-sheet-root', status='fixed', commit='212f09f',
     reproducer={'R': 5.0, 'a': 0.5, 'b': 3.0, 'family': 'hyperboloid', 'fill': 0.75, 'n': 2.0, 'psf': False, 'sign': 1,
                 'wl': 0.5})
 
+add(property='C09', id='C09-image-index', status='fixed', commit='09399f0', clause='opd_is_path_difference_to_reference_sphere',
+    what='fixed: property=C09 09399f0 the distance from the image surface back to the reference sphere was not multiplied by '
+         'the image-space index (image in glass: OPD wrong by hundreds of waves)',
+    reproducer={'spec': spec([surf(R=40.0, t=5.0, mat=glass(1.6), stop=True), surf(R=-60.0, t=6.0),
+                              surf(R=30.0, t=45.0, mat=glass(1.5))], ap=('EPD', 8.0), fields=(0.0, 3.0), img=glass(1.5)),
+                'dist': 'hexapolar', 'n': 2, 'fld': 1, 'wl': 0, 'extras': False})
+
 for _e in F:
     if _e['id'] == 'C13-caller-arrays':
         _e['reproducer']['spec']['fields'][1].update(vx=0.2, vy=0.3)
